@@ -386,6 +386,6 @@ def subchecks():
             run_case=run_search_case,
             strategy=lambda tier: gen.scenario(tier),
             examples={"quick": 1500, "thorough": 20000},
-            case_timeout=120.0,
+            case_timeout=20.0,
         ),
     ]
